@@ -48,9 +48,10 @@ JumpsArePositions(c) ==
 
 Init == cid \in 1..Len(Cases) /\ phase = "start" /\ st = "ok"
 RunCompile == /\ phase = "start" /\ st = "ok" /\ Cases[cid].kind = "compile"
-              /\ phase' = IF Cases[cid].apiStatus = "ok" THEN "compiled" ELSE "done"
-              /\ st' = IF (Cases[cid].compileExit = 0) # (Cases[cid].apiStatus = "ok") THEN "exit-status-does-not-reflect-success"
-                       ELSE IF Cases[cid].apiStatus = "ok" /\ ~Cases[cid].docParsed THEN "output-is-not-json" ELSE "ok"
+              /\ phase' = IF Cases[cid].apiStatus = "ok" /\ Cases[cid].inputOk THEN "compiled" ELSE "done"
+              \* success = the source is accepted AND the invocation is as documented (settings document complete, files readable)
+              /\ st' = IF (Cases[cid].compileExit = 0) # (Cases[cid].apiStatus = "ok" /\ Cases[cid].inputOk) THEN "exit-status-does-not-reflect-success"
+                       ELSE IF Cases[cid].apiStatus = "ok" /\ Cases[cid].inputOk /\ ~Cases[cid].docParsed THEN "output-is-not-json" ELSE "ok"
               /\ UNCHANGED cid
 ReadDocument == /\ phase = "compiled" /\ st = "ok"
                 /\ phase' = "read"
@@ -58,7 +59,8 @@ ReadDocument == /\ phase = "compiled" /\ st = "ok"
                 /\ UNCHANGED cid
 RunDecompile == /\ st = "ok" /\ (phase = "read" \/ (phase = "start" /\ Cases[cid].kind = "decompile"))
                 /\ phase' = "done"
-                /\ st' = IF Cases[cid].decompileExit # 0 THEN "decompile-command-rejects-document" ELSE "ok"
+                /\ st' = IF Cases[cid].inputOk /\ Cases[cid].decompileExit # 0 THEN "decompile-command-rejects-document"
+                         ELSE IF ~Cases[cid].inputOk /\ Cases[cid].decompileExit = 0 THEN "decompile-exit-0-on-invalid-document" ELSE "ok"
                 /\ UNCHANGED cid
 Next == RunCompile \/ ReadDocument \/ RunDecompile
 Spec == Init /\ [][Next]_vars
